@@ -1,0 +1,89 @@
+//! Verification hook (compiled only with `--cfg libp2p_verif`): thin public wrappers around
+//! the crate-private negotiation [`Message`] and [`MessageIO`]. Child module of `protocol`
+//! because `Message::encode`/`Message::decode` are private to that module. A public mirror
+//! enum stands in for `Message`; conversion is field by field, all encoding, decoding and
+//! framing is done by the production code.
+
+use bytes::{Bytes, BytesMut};
+use futures::prelude::*;
+
+use super::{HeaderLine, Message, MessageIO, Protocol, ProtocolError};
+
+/// Public mirror of the private `Message`.
+#[derive(Debug, Clone, PartialEq, Eq)]
+pub enum VMessage {
+    Header,
+    Protocol(String),
+    ListProtocols,
+    Protocols(Vec<String>),
+    NotAvailable,
+}
+
+fn to_message(m: &VMessage) -> Result<Message, ProtocolError> {
+    Ok(match m {
+        VMessage::Header => Message::Header(HeaderLine::V1),
+        VMessage::Protocol(p) => Message::Protocol(Protocol::try_from(p.as_str())?),
+        VMessage::ListProtocols => Message::ListProtocols,
+        VMessage::Protocols(ps) => Message::Protocols(
+            ps.iter()
+                .map(|p| Protocol::try_from(p.as_str()))
+                .collect::<Result<Vec<_>, _>>()?,
+        ),
+        VMessage::NotAvailable => Message::NotAvailable,
+    })
+}
+
+fn from_message(m: Message) -> VMessage {
+    match m {
+        Message::Header(HeaderLine::V1) => VMessage::Header,
+        Message::Protocol(p) => VMessage::Protocol(p.as_ref().to_owned()),
+        Message::ListProtocols => VMessage::ListProtocols,
+        Message::Protocols(ps) => {
+            VMessage::Protocols(ps.iter().map(|p| p.as_ref().to_owned()).collect())
+        }
+        Message::NotAvailable => VMessage::NotAvailable,
+    }
+}
+
+/// `Message::encode` (names are validated by the production `Protocol::try_from(&str)`).
+pub fn encode_message(m: &VMessage) -> Result<Vec<u8>, ProtocolError> {
+    let mut buf = BytesMut::new();
+    to_message(m)?.encode(&mut buf);
+    Ok(buf.to_vec())
+}
+
+/// `Message::decode` on one frame body.
+pub fn decode_message(body: &[u8]) -> Result<VMessage, ProtocolError> {
+    Message::decode(Bytes::copy_from_slice(body)).map(from_message)
+}
+
+/// Send the messages through the production `MessageIO` sink (length-delimited framing) and
+/// flush after the last one; returns the I/O resource on success.
+pub async fn send_framed<R>(io: R, msgs: &[VMessage]) -> Result<R, ProtocolError>
+where
+    R: AsyncRead + AsyncWrite + Unpin,
+{
+    let mut mio = MessageIO::new(io);
+    for m in msgs {
+        mio.feed(to_message(m)?).await?;
+    }
+    mio.flush().await?;
+    Ok(mio.into_inner())
+}
+
+/// Receive through the production `MessageIO` stream until EOF or the first error.
+pub async fn recv_framed<R>(io: R) -> Vec<Result<VMessage, ProtocolError>>
+where
+    R: AsyncRead + AsyncWrite + Unpin,
+{
+    let mut mio = MessageIO::new(io);
+    let mut out = Vec::new();
+    while let Some(r) = mio.next().await {
+        let stop = r.is_err();
+        out.push(r.map(from_message));
+        if stop {
+            break;
+        }
+    }
+    out
+}
